@@ -11,6 +11,8 @@ from hv import equiv, rules
 from hv.symx import core as sx
 from hv.symx.core import E, S, Tok
 
+from hv.replay import replay_mismatch
+
 META = {
     "engine": "symx+pysem",
     "level": "proof",
@@ -176,7 +178,8 @@ def run(chk):
     C("match/as", lambda s, a: E(S("match"), s, Integer(1), Keyword("as"), S("w"), a), 2, BT, fn=f)
     C("match/value-used", lambda s, a, b: E(S("if"), E(S("match"), s, Integer(1), a), b, b), 3, ("E", "SE"), kind="arity_bounded")
     rules.run_cases(chk, ["match/0", "match/1", "match/2", "match/3", "match/guard-1", "match/guard-2", "match/guard-then-default",
-                          "match/as", "match/value-used"] + [f"match/literal-guard-{g}" for g in ("0", "empty-string", "empty-list", "1")])
+                          "match/as", "match/value-used"] + [f"match/literal-guard-{g}" for g in ("0", "empty-string", "empty-list", "1")],
+                    replay_fn=replay_mismatch)
     chk.fn("hy/core/result_macros.py::compile_pattern", f)
     chk.trust("CPython's parser and match semantics for identical pattern nodes", "pysem Match model", "pattern renderer (docs/api.rst match)")
     chk.bounds.update({"pattern depth": "2 quick / 3 thorough", "clauses": "<=3"})
